@@ -63,11 +63,13 @@ NAMED = {
     '_tr_log*sqrt': lambda x, c: (_log(x + 1) * math.sqrt(x)) if x >= 0 else float('nan'),
     '_tr_log*100': lambda x, c: float(round(_log(x + 1) * 100)) if x > -1 else (float('-inf') if x == -1 else float('nan')),
     '_tr_nonzero': lambda x, c: 1.0 if x != 0 else 0.0,
-    '_tr_round(div(x,max))': lambda x, c: _round0(x / c['max']) if c['max'] != 0 else (float('nan') if x == 0 else math.copysign(float('inf'), x)),      # IEEE division by a zero maximum
+    '_tr_round(div(x,max))': lambda x, c: float('nan') if (c['max'] != c['max'] or x != x) else _round0(x / c['max']) if c['max'] != 0 else (float('nan') if x == 0 else math.copysign(float('inf'), x)),      # IEEE division by a zero maximum
 }
 
 
 def parse_num(s):
+    if s is None:
+        return float('nan')
     s = s.replace('"', '')
     return 0.0 if s == '' else float(s)
 
@@ -242,7 +244,8 @@ def main():
     grids = [['-3', '-1', '0', '', '1', '2', '7', '100', '1e300', '0.5', '-0.25', '12', '3', '"4"'],
              ['0', '0', '1', '5', '9', '', '2', '1e-300', '30', '-7', '8', '64'],
              ['-3', '-1', '0', '', '-2', '0', '-7', '', '-1', '-12', '0', '-0.5'],            # no positive value: the column maximum is 0
-             ['-5', '-5', '-1', '-2', '-9', '-3', '-30', '-7']]                                 # all negative
+             ['-5', '-5', '-1', '-2', '-9', '-3', '-30', '-7'],                                # all negative
+             ['1', '4', None, '9', None, '16', '2', '3', '25', '7']]                           # real missing cells (float NaN in the frame, not empty strings): parsed as NaN
     for gi, grid in enumerate(grids):
         for preset in ('minimal', 'default'):
             r_ = PC.pipe_eval([{'op': 'transform_columns', 'items': [{'values': grid, 'preset': preset}]}], modules=['sketch_ops'])[0]
@@ -251,7 +254,7 @@ def main():
                 continue
             ob = r_['ok'][0]
             xs = [parse_num(s) for s in grid]
-            ctx = {'max': max(xs)}
+            ctx = {'max': float('nan') if any(x != x for x in xs) else max(xs)}          # numpy's max propagates NaN
             for col in ob['new']:
                 tname = col[1:]
                 if tname not in NAMED:
